@@ -288,7 +288,7 @@ def check_elements(chk) -> None:
             chk.violation("elements-dotbracket", fi.site(c), f"`{t[:90]}` is not the structure's own dot-bracket (self.dot_bracket.structure): strand structure text differs from the reported notation", K(fi, f"dotbracket:{norm(c)[:50]}"), found=t)
         else:
             chk.error("elements-dotbracket", fi.site(c), f"dot-bracket argument `{t[:90]}` not resolved")
-    chk.floor("elements-dotbracket", 5)
+    chk.floor("elements-dotbracket", 3)
     # fact-level rules first (checks/c07e.py); the pinned-form rules below are only the fallback when the code cannot be read at fact level
     from checks import c07e
 
